@@ -1311,3 +1311,159 @@ def _abs_sd_resolved(vc, name, self):
 
 CONTRACTS["someip.header.SOMEIPSDHeader.resolve_options"] = sd_resolve_options
 ABSTRACT[sd_resolve_options] = {"gen": _abs_sd_resolved, "raises": ()}
+
+
+# ---------------------------------------------------------------------------- header-level glue, unbounded (comprehension contracts)
+
+
+def sd_assign_option_indexes(self):
+    options = list(self.options)
+    entries = [e.assign_option_index(options) for e in self.entries]
+    return H.SOMEIPSDHeader(entries=tuple(entries), options=tuple(options), flag_reboot=self.flag_reboot, flag_unicast=self.flag_unicast, flags_unknown=self.flags_unknown)
+
+
+def _abs_sd_assigned(vc, name, self):
+    """callers of SOMEIPSDHeader.assign_option_indexes rely on: same flags, one entry per
+    entry, the option array extended at its end (proved by ob_sd_assign_option_indexes)"""
+    entries = vc.opaque_seq(name + ".entries", "entry")
+    vc.assume(len(entries) == len(self.entries))
+    return H.SOMEIPSDHeader(entries=entries, options=tuple(self.options) + vc.opaque_seq(name + ".new_options", "option"), flag_reboot=self.flag_reboot, flag_unicast=self.flag_unicast, flags_unknown=self.flags_unknown)
+
+
+CONTRACTS["someip.header.SOMEIPSDHeader.assign_option_indexes"] = sd_assign_option_indexes
+ABSTRACT[sd_assign_option_indexes] = {"gen": _abs_sd_assigned, "raises": ()}
+
+
+def _aoi_init(vc, v):
+    vc.stash("aoi.init", v)
+
+
+def _aoi_inv(vc, v):
+    """the shared array only grows at its end: the message's own options keep their indexes"""
+    pre = v["self"].options
+    opts = v["options"]
+    return len(opts) >= len(pre) and vc.forall(0, len(pre), lambda m: opts[m] == pre[m])
+
+
+def _aoi_head(vc, v, entering):
+    vc.stash("aoi.entering", entering)
+    vc.stash("aoi.head", v)
+
+
+def _aoi_post(vc, v):
+    vc.stash("aoi.post", v)
+
+
+def _ro_head(vc, v, entering):
+    vc.stash("ro.entering", entering)
+    vc.stash("ro.head", v)
+
+
+def _ro_post(vc, v):
+    vc.stash("ro.post", v)
+
+
+LOOPS.update(
+    {
+        ("someip.header.SOMEIPSDHeader.assign_option_indexes", "comp", 0): {
+            "havoc": {"options": _gen_symlist},
+            "init": _aoi_init,
+            "inv": _aoi_inv,
+            "head": _aoi_head,
+            "post": _aoi_post,
+        },
+        ("someip.header.SOMEIPSDHeader.resolve_options", "comp", 0): {"head": _ro_head, "post": _ro_post},
+    }
+)
+
+
+def _gen_resolved_entry(vc, name):
+    from contracts.spec_config import gen_entry
+
+    return gen_entry(vc, name, resolved=True)
+
+
+def ob_sd_assign_option_indexes(vc):
+    """SOMEIPSDHeader.assign_option_indexes for a message with ARBITRARILY MANY entries
+    (comprehension contract): the shared array starts as the message's options and only
+    grows at its end (invariant); an arbitrary entry gets indexes such that, whatever later
+    entries append, resolving them against the final array returns exactly its two runs;
+    the result keeps the flags, has one entry per entry and carries the final array"""
+    h = H.SOMEIPSDHeader(
+        entries=vc.seq("entries", _gen_resolved_entry),
+        options=vc.opaque_seq("options", "option"),
+        flag_reboot=vc.bool("flag_reboot"),
+        flag_unicast=vc.bool("flag_unicast"),
+        flags_unknown=vc.int("flags_unknown", 0, 63),
+    )
+    o = vc.outcome(vc.body(H.SOMEIPSDHeader.assign_option_indexes), h)
+    vc.check(o.kind != "raise", "assign_option_indexes.never_raises")
+    if vc.native:
+        if o.kind == "ret":
+            r = o.value.resolve_options()
+            vc.check_eq(r.entries, h.entries, "assign_option_indexes.resolves_back")
+            vc.check_eq([(e.options_1, e.options_2) for e in r.entries], [(e.options_1, e.options_2) for e in h.entries], "assign_option_indexes.resolves_back_runs")
+        return
+    init = vc.stashed("aoi.init")
+    vc.check_eq(tuple(init["options"]), h.options, "assign_option_indexes.init.shared_array_starts_as_the_messages_options")
+    if vc.stashed("aoi.entering"):
+        vc.cover("entry")
+        post = vc.stashed("aoi.post")
+        e = post["e"]
+        a = post["$elt"]
+        vc.check(not a.options_resolved, "assign_option_indexes.step.entry_has_indexes")
+        final = post["options"]
+        final.extend(vc.opaque_seq("later", "option"))
+        r = a.resolve_options(tuple(final))
+        vc.check_eq(r.options_1, e.options_1, "assign_option_indexes.step.entry_keeps_run_1")
+        vc.check_eq(r.options_2, e.options_2, "assign_option_indexes.step.entry_keeps_run_2")
+        vc.check_eq(r, e, "assign_option_indexes.step.entry_keeps_its_fields")
+    else:
+        vc.cover("exit")
+        vc.check(o.kind == "ret", "assign_option_indexes.exit.returns")
+        if o.kind == "ret":
+            res = o.value
+            head = vc.stashed("aoi.head")
+            vc.check_eq((res.flag_reboot, res.flag_unicast, res.flags_unknown), (h.flag_reboot, h.flag_unicast, h.flags_unknown), "assign_option_indexes.exit.flags_kept")
+            vc.check_eq(len(res.entries), len(h.entries), "assign_option_indexes.exit.one_entry_per_entry")
+            vc.check_eq(res.options, tuple(head["options"]), "assign_option_indexes.exit.carries_the_final_array")
+            vc.check(len(res.options) >= len(h.options), "assign_option_indexes.exit.options_only_grow")
+
+
+def _gen_wire_entry_for_resolve(vc, name):
+    return gen_wire_entry(vc, name)
+
+
+def ob_sd_resolve_options(vc):
+    """SOMEIPSDHeader.resolve_options for ARBITRARILY MANY entries: an arbitrary entry is
+    resolved against the message's option array exactly as its contract says; the result
+    keeps flags and options and has one entry per entry"""
+    h = H.SOMEIPSDHeader(
+        entries=vc.seq("entries", _gen_wire_entry_for_resolve),
+        options=vc.opaque_seq("options", "option"),
+        flag_reboot=vc.bool("flag_reboot"),
+        flag_unicast=vc.bool("flag_unicast"),
+        flags_unknown=vc.int("flags_unknown", 0, 63),
+    )
+    o = vc.outcome(vc.body(H.SOMEIPSDHeader.resolve_options), h)
+    if vc.native:
+        vc.same_outcome(o, vc.outcome(sd_resolve_options, h), "resolve_options.refines_whole")
+        return
+    if vc.stashed("ro.entering"):
+        vc.cover("entry")
+        post = vc.stashed("ro.post")
+        exp = entry_resolve_options(post["e"], h.options)
+        vc.check_eq(post["$elt"], exp, "resolve_options.step.entry_resolved_against_the_messages_options")
+        vc.check_eq(post["$elt"].options_1, exp.options_1, "resolve_options.step.run_1")
+        vc.check_eq(post["$elt"].options_2, exp.options_2, "resolve_options.step.run_2")
+    else:
+        vc.cover("exit")
+        vc.check(o.kind == "ret", "resolve_options.exit.returns")
+        if o.kind == "ret":
+            res = o.value
+            vc.check_eq((res.flag_reboot, res.flag_unicast, res.flags_unknown), (h.flag_reboot, h.flag_unicast, h.flags_unknown), "resolve_options.exit.flags_kept")
+            vc.check_eq(res.options, h.options, "resolve_options.exit.options_kept")
+            vc.check_eq(len(res.entries), len(h.entries), "resolve_options.exit.one_entry_per_entry")
+
+
+GLUE_OBLIGATIONS = [ob_sd_assign_option_indexes, ob_sd_resolve_options]
